@@ -277,7 +277,7 @@ Section Coll.
       rewrite <- (read_coll_sep f 125 comma_sp (join comma_sp _ ++ _) acc (or_intror eq_refl)), app_assoc.
       rewrite join_body by discriminate. f_equal. f_equal. unfold items, body. clear.
       generalize (e :: more) as l0. intro l0.
-      induction l0 as [|x l IH]; [reflexivity|]. simpl. rewrite IH. unfold e_text, comma_sp, sp.
+      induction l0 as [|x l IH]; [reflexivity|]. simpl. simpl in IH. rewrite IH. unfold e_text, comma_sp, sp.
       simpl. rewrite <- !app_assoc. reflexivity. }
     rewrite B. rewrite (read_items items OK f acc rest 125 eq_refl).
     - f_equal. f_equal. f_equal. unfold items. clear. induction es as [|e l IH]; [reflexivity|]. simpl. rewrite IH. reflexivity.
